@@ -461,6 +461,10 @@ func (g *Gate) SendRequest(ctx context.Context, addr string, req *tikvrpc.Reques
 		return nil, errLost
 	case "crash_after":
 		return nil, errCrashed
+	case "undetermined":
+		// the store carried the request out but answers that the result is undetermined (e.g. the leader stepped
+		// down while applying): the client must treat the outcome as unknown
+		return tikvrpc.GenRegionErrorResp(req, &errorpb.Error{Message: "verif undetermined", UndeterminedResult: &errorpb.UndeterminedResult{}})
 	}
 	return resp, err
 }
